@@ -127,6 +127,12 @@ pub fn exercise(bytes: &[u8], cfg: &Cfg) -> Vec<(String, String)> {
                 for n in names.iter().take(40) { export.insert(n, vec![]); }
                 linear_extract(&mut r, &mut export).map(|_| String::new()).map_err(|e| err_class(&e))
             }));
+            // … and of a part of it (the blocks of the files left out are skipped, not delivered)
+            push("linear-partial", guarded(|| {
+                let mut export: HashMap<&String, Vec<u8>> = HashMap::new();
+                for n in names.iter().take(40).skip(1).step_by(2) { export.insert(n, vec![]); }
+                linear_extract(&mut r, &mut export).map(|_| String::new()).map_err(|e| err_class(&e))
+            }));
         }
     }
     // repair, both modes (repair() has its own catch_unwind)
@@ -243,7 +249,16 @@ fn mutate_blocks(rng: &mut Rng, inner: &[u8]) -> (Vec<u8>, String) {
     let mut blocks: Vec<Vec<u8>> = br[..nb].iter().map(|(a, b, _)| inner[*a..*b].to_vec()).collect();
     let i = rng.below(blocks.len() as u64) as usize;
     let j = rng.below(blocks.len() as u64) as usize;
-    let what = match rng.below(8) {
+    let what = match rng.below(10) {
+        8 | 9 => {
+            // the length field of a block (name length / content length) set to an extreme value: around i64::MAX
+            // and u64::MAX (signed conversions, position + length sums), 2^31, 2^32
+            if blocks[i][0] <= 0x01 && blocks[i].len() >= 17 {
+                let v: u64 = *rng.pick(&[i64::MAX as u64, i64::MAX as u64 - 7, (i64::MAX as u64) + 1, u64::MAX, u64::MAX - 20, 1 << 32, (1 << 32) - 1, 1 << 31, (1 << 63) - 4096]);
+                blocks[i][9..17].copy_from_slice(&v.to_le_bytes());
+            }
+            "blocks:length-extreme"
+        }
         0 => { blocks.swap(i, j); "blocks:swap" }
         1 => { if i + 1 < blocks.len() { blocks.swap(i, i + 1); } "blocks:swap-adjacent" }
         2 => { let b = blocks[i].clone(); blocks.insert(j, b); "blocks:duplicate" }
